@@ -66,6 +66,16 @@ claim("C08", "sibling gate agreement by edge dominance, who-may-install-a-transp
       "Static rules over engine/server.go and engine/socket.go MaybeUpgrade: both upgrade entry points reach MaybeUpgrade only for a known, not upgrading, not upgraded session with a successfully created candidate and close the connection otherwise; the transport is installed only by setTransport and, in the listener, only on UPGRADE ∧ not closed (upgraded set there, never reset); the probe is answered with one PONG probe on the candidate and the check interval re-armed, NOOP only on a writable polling transport; every non-switch outcome runs cleanup before closing the candidate and never touches the session or its transport; the upgrading claim is one CompareAndSwap whose loser is closed. The reader goroutine is started before any listener is attached (two listed findings). Message continuity across the switch, liveness of a conformant upgrade and timer timing are not decided.",
       TB, "DESIGN.md §3 C08")
 
+claim("C09", "call-graph reachability from the client-byte entry points (static calls + CHA + the repo's listener and timer-callback wiring) for the panic allow-list, interprocedural must-held-lock rule for connection writes, nil-safety rules, emitter/listener signature agreement by type assignability, answer-or-park path rule, reader-loop exit rule",
+      "Crash and hang clauses only: the only explicit panics reachable from client input are the allow-listed webtransport guards (made unreachable by the rule that every connection write holds the transport mutex) and the documented repeated-read guard; no Timer method on a nil holder; JSON decode targets cannot be nil-dereferenced; every unchecked type assertion / index in a listener is matched by all Emit sites of that event (argument count and assignable type) and errorContext messages are strings; every path of the polling/HTTP request functions answers, parks or delegates; reader goroutines leave their loop on a read error; request bodies and frames are read through limits. Work proportional to input (the known exponential spin is in the external parser), run-time panics inside dependencies and isolation under load are not decided.",
+      TB, "DESIGN.md §3 C09")
+claim("C10", "taint-style who-may-read rule for request bodies, dominance of body reads by the declared-length test, must-precede of SetReadLimit before the first read, limit-enforcement path rule in advanceFrame, resolved option-accessor chains",
+      "Static rules: every use of a request body other than Close goes through http.MaxBytesReader/LimitReader with a limit from MaxHttpBufferSize() and overflow is answered 413; a declared oversize is refused with 413 before reading; the gorilla and WebTransport connections get SetReadLimit(Opts().MaxHttpBufferSize()) before the first read and the limited Conn is the one used; advanceFrame's every successful data-frame return passes the accumulate/overflow/limit tests (violation edge closes the session and returns ErrReadLimit); the reader clamps to the declared length; transports receive their limit from the same option accessor that the open packet advertises. Byte/character accounting, 'limit plus a constant' as a number and gorilla's own enforcement are not decided.",
+      TB, "DESIGN.md §3 C10")
+claim("C11", "atomic claim (CAS) rule for the pending-request slots, overlap-edge effect table, single-writer rule for the raw ResponseWriter (who-may-use + held lock + done guard), must-precede for the ok acknowledgement, answer-or-park path rule, close-release effect table",
+      "Static rules over transports/polling.go and types/http-context.go: the poll and data slots are claimed with CompareAndSwap(nil, ctx) and only nil is ever stored otherwise; the overlap edge reports the error, answers 400 and returns; HttpContext.Write is the only writer of the raw ResponseWriter (besides the protocol upgraders), under its mutex, only when not done, and marks done once; 'ok' is written only after OnData and cleanup, on a synchronous dispatch chain; every path of the request functions answers or parks; DoClose/OnClose/send/respond release a pending poll with close/noop or a bounded timer. Pairing under aborts racing with writes is not decided.",
+      TB, "DESIGN.md §3 C11")
+
 UNDER_CONSTRUCTION = "static rule set designed in DESIGN.md §3 but its checker is not built yet in this revision; not claimed until it is"
 
 def main():
